@@ -28,7 +28,9 @@ func runC10(c *Ctx) {
 	ruleNoLeak(c, p, roles, "C10.leak")
 	ruleHandshakeWatchdog(c, p)
 	rulePacketDeadline(c, p, "C10.deadline")
+	ruleDeadlineDisarmed(c, p, "C10.disarm")
 	ruleNoLockAcrossIO(c, p, "C10.lock-io")
+	ruleCloseMarks(c, p, "C10.close-marks")
 	c.R.Assumptions = append(c.R.Assumptions,
 		"net.Conn.Close unblocks pending reads and writes; errgroup.Wait waits for all goroutines",
 		"decided: shape of the Cancel packet, close on every cancellation path, error provenance, every blocking wait has a context- or sibling-controlled exit, the read deadline honours the context deadline; not decided: the time bound itself")
@@ -163,7 +165,8 @@ func ruleCancelError(c *Ctx, p *core.Program, r *doRoles) {
 	rule := "C10.error"
 	c.R.Rule(rule, "the value returned by the cancel-watch on the cancellation path depends on ctx.Err() through error-combining wrappers only (multierr.Append / errors.Wrap keep the chain), and the receive loop returns ctx.Err() when it observes a dead context")
 	cfg := p.Cfg.Name
-	calls := core.FindCalls(r.Watch, isClientMethod("cancelQuery"))
+	wh := watchHost(r)
+	calls := core.FindCalls(wh, isClientMethod("cancelQuery"))
 	if len(calls) != 1 {
 		c.R.Bad(rule, core.FuncName(r.Watch), cfg, p.Pos(r.Watch.Pos()), "no single cancelQuery call")
 		return
@@ -171,14 +174,33 @@ func ruleCancelError(c *Ctx, p *core.Program, r *doRoles) {
 	cq := calls[0].(ssa.Instruction)
 	bad := false
 	n := 0
-	for _, b := range r.Watch.Blocks {
+	if wh != r.Watch {
+		// the watch closure must hand the host's error on unchanged
+		for _, b := range r.Watch.Blocks {
+			ret, ok := b.Instrs[len(b.Instrs)-1].(*ssa.Return)
+			if !ok {
+				continue
+			}
+			for _, cc := range core.Calls(r.Watch) {
+				if core.StaticFn(cc) != wh || !(cc.Block() == b || cc.Block().Dominates(b)) {
+					continue
+				}
+				rv := core.ReturnErr(r.Watch, ret)
+				if rv == nil || !(rv == cc.Value() || chainKeeps(rv, func(x ssa.Value) bool { return x == cc.Value() }, 0)) {
+					bad = true
+					c.R.Bad(rule, core.FuncName(r.Watch), cfg, p.Pos(ret.Pos()), "the cancel-watch does not return the error of the method that cancels")
+				}
+			}
+		}
+	}
+	for _, b := range wh.Blocks {
 		for _, in := range b.Instrs {
 			ret, ok := in.(*ssa.Return)
 			if !ok || !(cq.Block() == b || cq.Block().Dominates(b)) {
 				continue
 			}
 			n++
-			rv := core.ReturnErr(r.Watch, ret)
+			rv := core.ReturnErr(wh, ret)
 			if !chainKeeps(rv, isCtxErr, 0) {
 				bad = true
 				c.R.Bad(rule, core.FuncName(r.Watch), cfg, p.Pos(ret.Pos()), "the error returned after cancelQuery does not wrap ctx.Err()")
